@@ -3,6 +3,7 @@
 
 pub mod bfs;
 pub mod comps;
+pub mod conc;
 pub mod hist;
 pub mod join;
 pub mod kinds;
